@@ -91,6 +91,9 @@ def gen_grid_case(r, which):
         ref_stamps = [base + k / 8 for k in range(n)]
     keep = list(range(n)) if fmt == "kitti" else ([k for k in range(n) if r.random() < 0.85] or [0])
     est_stamps = [ref_stamps[k] + r.choice([0, 0, 1, -1, 2]) / 64 - (off or 0.0) for k in keep]
+    if fmt == "tum" and len(est_stamps) > 2 and r.random() < 0.15:
+        k = r.randrange(1, len(est_stamps))
+        est_stamps[k] = est_stamps[k - 1]          # duplicate stamp in the estimate (contested / tied counterparts)
     data = {"ref12": ref12, "est12": [est12[k] for k in keep], "ref_stamps": ref_stamps, "est_stamps": est_stamps,
             "ref_ns": ref_ns}
     o = {"pose_relation": r.choice(mc.RELS[:6] if which == "ape" else mc.RELS)}
@@ -135,9 +138,9 @@ def gen_opts(r, which, fmt, data):
     if r.random() < 0.35:
         o["correct_scale"] = True
     if (o.get("align") or o.get("correct_scale")) and r.random() < 0.4:
-        o["n_to_align"] = r.choice([3, max(3, n // 2)])
+        o["n_to_align"] = r.choice([3, max(3, n // 2), 1, 2, -2, 100])
     if r.random() < 0.25:
-        o["downsample"] = r.choice([0, max(2, n // 2), max(3, n - 2), 1000])
+        o["downsample"] = r.choice([0, max(2, n // 2), max(3, n - 2), 1000, -1, 1, n])
     if r.random() < 0.2:
         o["motion_filter"] = [r.choice([0.0, 0.2, 1.0]), r.choice([0.0, 5.0, 20.0])]
     if r.random() < 0.3:
@@ -157,7 +160,7 @@ def gen_opts(r, which, fmt, data):
         if r.random() < 0.3:
             o["t_end"] = r.choice([t0 + 0.8 * (t1 - t0), t1, 0.0 if t0 < 0 else t1 + 1])
         if r.random() < 0.3:
-            o["t_max_diff"] = r.choice([0.001, 0.02, 0.05])
+            o["t_max_diff"] = r.choice([0.001, 0.02, 0.05, "1e-2", "5E-3", 0.0])
     if which == "rpe":
         u = r.choice(["f", "f", "m", "d", "r"])
         o["delta_unit"] = u
@@ -167,12 +170,42 @@ def gen_opts(r, which, fmt, data):
             o["all_pairs"] = True
         if r.random() < 0.5:
             o["pairs_from_reference"] = True
-        if r.random() < 0.2:
-            o["delta_tol"] = r.choice([0.05, 0.3])
+        if r.random() < 0.25:
+            o["delta_tol"] = r.choice([0.05, 0.3, 0.0, "1e-1"])
+        if r.random() < 0.08 and (u != "f" or o.get("all_pairs")):
+            o["delta"] = 0.0
     return o
 
 
+NAMES = [("ref.txt", "est.txt"), ("ref traj.txt", "est traj.txt"), ("r\u00e9f.txt", "\u00e9st.txt"), ("1e3", "b.tum"),
+         ("ref.txt ", "est.kitti"), ("a.zip", "-.txt")]
+SPELLINGS = ["abs", "abs", "rel", "dot", "updown"]
+
+
+def decorate(r, case, pool):
+    """L2/L7/L9/L10 variants of a CLI case: file names from an adversarial set, path spellings (relative to the working
+    directory, ./f, sub/../f), the same file as reference and estimate, a previous run on the same paths with other content"""
+    if case["fmt"] != "euroc":
+        case["names"] = list(r.choice(NAMES))
+    case["spelling"] = r.choice(SPELLINGS)
+    if case["fmt"] != "euroc" and r.random() < 0.06:
+        case["same_file"] = True
+    if pool and r.random() < 0.15:
+        other = r.choice(pool)
+        if other["fmt"] == case["fmt"]:
+            case["prewrite"] = other["data"]
+    return case
+
+
 def gen_cli_cases(ctx, which):
+    pool = []
+    for c in gen_cli_cases0(ctx, which):
+        c = decorate(ctx.rng, c, pool)
+        pool.append(c)
+        yield c
+
+
+def gen_cli_cases0(ctx, which):
     r = ctx.rng
     n_cases = 120 if not ctx.thorough else 2500
     # corpus: F9 (t_start 0 with stamps straddling zero), offset signs, crop on the reference only
@@ -293,9 +326,30 @@ def evaluate_api(ctx, case):
 
 
 # ------------------------------------------------------------------------------------------------ files, argv
-def write_files(case, d):
-    data, fmt = case["data"], case["fmt"]
-    ref, est = os.path.join(d, "ref.txt"), os.path.join(d, "est.txt")
+def file_names(case):
+    if case["fmt"] == "euroc":
+        return "data.csv", "est.txt"
+    rn, en = case.get("names", ("ref.txt", "est.txt"))
+    return rn, (rn if case.get("same_file") else en)
+
+
+def spell(case, d, name):
+    """the path of file `name` in directory `d` as given on the command line (the working directory is `d`)"""
+    sp = case.get("spelling", "abs")
+    if sp == "rel":
+        return name if not name.startswith("-") else "./" + name
+    if sp == "dot":
+        return "./" + name
+    if sp == "updown":
+        return "sub/../" + name
+    return os.path.join(d, name)
+
+
+def write_files(case, d, data=None):
+    data, fmt = data or case["data"], case["fmt"]
+    rn, en = file_names(case)
+    os.makedirs(os.path.join(d, "sub"), exist_ok=True)
+    ref, est = os.path.join(d, rn), os.path.join(d, en)
     if fmt == "kitti":
         mc.write_kitti(ref, data["ref12"])
         mc.write_kitti(est, data["est12"])
@@ -304,11 +358,12 @@ def write_files(case, d):
         mc.write_tum(est, data["est_stamps"], est7)
         ref7 = mc.to_quat_rows(data["ref12"])
         if fmt == "euroc":
-            ref = os.path.join(d, "data.csv")
             mc.write_euroc(ref, data["ref_ns"], ref7)
-        else:
+        elif not case.get("same_file"):
             mc.write_tum(ref, data["ref_stamps"], ref7)
-    return ref, est
+    if case.get("same_file") and fmt == "kitti":
+        mc.write_kitti(ref, data["est12"])
+    return spell(case, d, rn), spell(case, d, en)
 
 
 def argv_of(case, ref, est, zip_path):
@@ -321,7 +376,7 @@ def argv_of(case, ref, est, zip_path):
                 "delta", "delta_unit", "delta_tol"):
         if o.get(key) is not None:
             v = o[key]
-            a.append(f"--{key}={v!r}" if isinstance(v, float) else f"--{key}={v}")
+            a.append(f"--{key}={v!r}" if isinstance(v, float) else f"--{key}={v}")     # strings (1e-2) verbatim
     if case.get("off") is not None:
         a.append(f"--t_offset={case['off']!r}")
     if o.get("motion_filter") is not None:
@@ -351,24 +406,50 @@ def plan_line(which, args):
 
 
 # ------------------------------------------------------------------------------------------------ running evo
+_PARSERS = {}
+
+
+def the_parser(which):
+    """one parser object per tool for the whole process (L1: parser reuse)"""
+    if which not in _PARSERS:
+        if which == "ape":
+            from evo import main_ape_parser as mp
+        else:
+            from evo import main_rpe_parser as mp
+        _PARSERS[which] = mp.parser()
+    return _PARSERS[which]
+
+
 def run_cli(case):
     """evo_ape / evo_rpe in-process; returns the stored arrays (bytes) or the exception class"""
     from evo.tools.settings import SETTINGS
     if case["which"] == "ape":
-        from evo import main_ape as main, main_ape_parser as mp
+        from evo import main_ape as main
     else:
-        from evo import main_rpe as main, main_rpe_parser as mp
+        from evo import main_rpe as main
     d = tempfile.mkdtemp(prefix="evo_verif_cli_")
+    cwd = os.getcwd()
+    old = SETTINGS.save_traj_in_zip
     try:
-        ref, est = write_files(case, d)
+        os.chdir(d)
+        SETTINGS.save_traj_in_zip = True
         zp = os.path.join(d, "res.zip")
+        if case.get("prewrite"):
+            # L2: an earlier run of the tool on the same paths with other content (and an existing result file)
+            ref, est = write_files(case, d, data=case["prewrite"])
+            try:
+                with mc.quiet():
+                    main.run(the_parser(case["which"]).parse_args(argv_of(case, ref, est, zp)))
+            except Exception:  # noqa
+                pass
+        ref, est = write_files(case, d)
         argv = argv_of(case, ref, est, zp)
         out = {"argv": [a.replace(d, "<dir>") for a in argv]}
         with mc.quiet():
-            args = mp.parser().parse_args(argv)
+            args = the_parser(case["which"]).parse_args(argv)
         out["plan_line"] = plan_line(case["which"], args)
-        old = SETTINGS.save_traj_in_zip
-        SETTINGS.save_traj_in_zip = True
+        if case.get("prewrite") and os.path.exists(zp):
+            os.utime(zp, (1, 1))
         try:
             with mc.quiet():
                 main.run(args)
@@ -376,29 +457,37 @@ def run_cli(case):
         except Exception as e:  # noqa
             out["exc"] = type(e).__name__
             out["exc_msg"] = str(e)[:200]
-        finally:
-            SETTINGS.save_traj_in_zip = old
         if out["exc"] is None:
-            z = mc.read_zip_arrays(zp)
-            out["error_array"] = z["error_array"]
-            out["timestamps"] = z.get("timestamps")
-            import zipfile
-            with zipfile.ZipFile(zp) as zf:
-                out["trajs"] = {("ref" if os.path.basename(n).startswith(("ref", "data")) else "est"): zf.read(n)
-                                for n in zf.namelist() if n.endswith((".tum", ".kitti"))}
-        # fresh copies for the interpreters
+            if case.get("prewrite") and os.path.getmtime(zp) == 1:
+                out["exc"] = "ResultNotWritten"
+            else:
+                z = mc.read_zip_arrays(zp)
+                out["error_array"] = z["error_array"]
+                out["timestamps"] = z.get("timestamps")
+                import zipfile
+                rn, en = file_names(case)
+                if not case.get("same_file"):
+                    with zipfile.ZipFile(zp) as zf:
+                        out["trajs"] = {}
+                        for n in zf.namelist():
+                            if n.endswith((".tum", ".kitti")):
+                                base = os.path.basename(n.rsplit(".", 1)[0])
+                                out["trajs"]["ref" if base == rn else "est"] = zf.read(n)
         out["dir"] = d
         return out
     except Exception:
         shutil.rmtree(d, ignore_errors=True)
         raise
+    finally:
+        os.chdir(cwd)
+        SETTINGS.save_traj_in_zip = old
 
 
 def load_fresh(case, d):
     from evo.tools import file_interface as fi
     fmt = case["fmt"]
-    ref = os.path.join(d, "data.csv" if fmt == "euroc" else "ref.txt")
-    est = os.path.join(d, "est.txt")
+    rn, en = file_names(case)
+    ref, est = os.path.join(d, rn), os.path.join(d, en)
     with mc.quiet():
         if fmt == "kitti":
             return fi.read_kitti_poses_file(ref), fi.read_kitti_poses_file(est)
@@ -434,6 +523,9 @@ def apply_steps(steps, ref, est, stop_before_metric=False, capture=None):
             if op == "downsample":
                 ref.downsample(int(st[1]))
                 est.downsample(int(st[1]))
+            elif op == "E_FILTER":
+                from evo.core.filters import FilterException
+                raise FilterException("plan: motion filter on trajectories without timestamps")
             elif op == "motion_filter":
                 if capture is not None:
                     capture["mf_ref"], capture["mf_est"] = motion_par(ref), motion_par(est)
@@ -660,12 +752,12 @@ def documented_steps(case, which):
         st.append(["downsample", o["downsample"]])
     if o.get("motion_filter") is not None:
         if case["fmt"] == "kitti":
-            return "FilterException"
+            return st + [["E_FILTER"]]       # refused after the down-sampling that precedes it
         st.append(["motion_filter", o["motion_filter"][0], o["motion_filter"][1]])
     if case["fmt"] != "kitti":
         if o.get("t_start") is not None or o.get("t_end") is not None:
             st.append(["crop_ref", o.get("t_start"), o.get("t_end")])
-        st.append(["associate", o.get("t_max_diff", 0.01), case["off"] if case.get("off") is not None else 0.0])
+        st.append(["associate", float(o.get("t_max_diff", 0.01)), case["off"] if case.get("off") is not None else 0.0])
     a, s = bool(o.get("align")), bool(o.get("correct_scale"))
     if a or s:
         st.append(["align", "sim3" if (a and s) else "se3" if a else "scale_only", o.get("n_to_align", -1)])
@@ -714,7 +806,7 @@ def cli_oracle(ctx, case, impl, which):
         want_exc = "MetricsException"
     pairs = None
     if want_exc is None and which == "rpe":
-        pc = {"delta": o.get("delta", 1.0), "unit": o.get("delta_unit", "f"), "tol": o.get("delta_tol", 0.1),
+        pc = {"delta": o.get("delta", 1.0), "unit": o.get("delta_unit", "f"), "tol": float(o.get("delta_tol", 0.1)),
               "all_pairs": bool(o.get("all_pairs"))}
         try:
             pairs = P2.evo_pairs(pc, ref if o.get("pairs_from_reference") else est)
@@ -821,7 +913,7 @@ def evaluate(ctx, cases, which):
         # the whole pipeline inside the model (Model/Pipeline.lean) on the input trajectories
         rl, ridx = [], []
         for k, (case, impl, run) in enumerate(zip(cases, impls, runs)):
-            if plans[k] != "E_FILTER" and "in_ref" in run["capture"]:
+            if "in_ref" in run["capture"]:
                 rl.append(run_line(which, impl, run["capture"]))
                 ridx.append(k)
         routs = core.run_driver(rl, prop) if rl else []
@@ -840,9 +932,7 @@ def interpret(case, impl, plan):
     """the Lean plan, interpreted with evo's core API on fresh copies of the two files"""
     from evo import EvoException
     run = {"exc": None, "ref": None, "est": None, "metric": None, "capture": {}}
-    if plan == "E_FILTER":
-        run["exc"] = "FilterException"
-    elif plan == "BAD-OP":
+    if plan == "BAD-OP":
         raise core.ToolError("driver rejected " + impl["plan_line"])
     else:
         try:
@@ -934,12 +1024,27 @@ def judge(ctx, case, impl, plan, run, which):
             ctx.count("dist", "opt:" + k)
     if case.get("off") is not None:
         ctx.count("dist", "opt:t_offset" + ("+" if case["off"] > 0 else "-"))
+    ctx.count("dist", "path:" + case.get("spelling", "abs"))
+    for k in ("same_file", "prewrite"):
+        if case.get(k):
+            ctx.count("dist", "cli:" + k)
+    if case.get("names") and tuple(case["names"]) != ("ref.txt", "est.txt"):
+        ctx.count("dist", "cli:odd-file-names")
     ctx.record({k: v for k, v in case.items()}, nontrivial=len(case["opts"]) > 1 or case.get("off") is not None)
 
 
 def shrink(case):
     if case.get("kind") != "cli":
         return
+    for k in ("prewrite", "same_file", "names"):
+        if case.get(k):
+            c = copy.deepcopy(case)
+            del c[k]
+            yield c
+    if case.get("spelling", "abs") != "abs":
+        c = copy.deepcopy(case)
+        c["spelling"] = "abs"
+        yield c
     o = case["opts"]
     for k in list(o):
         if k in ("pose_relation", "delta", "delta_unit"):
